@@ -12,7 +12,7 @@ from xsdata.formats.dataclass.parsers.config import ParserConfig
 from xsdata.formats.dataclass.parsers.mixins import XmlNode
 from xsdata.formats.dataclass.parsers.utils import ParserUtils, PendingCollection
 from xsdata.logger import logger
-from xsdata.models.enums import DataType, Namespace
+from xsdata.models.enums import DataType, Namespace, QNames
 from xsdata.utils.namespaces import target_uri
 
 
@@ -182,6 +182,9 @@ class ElementNode(XmlNode):
             else:
                 var = self.meta.find_any_attributes(qname)
                 if var:
+                    if qname == QNames.XSI_TYPE and self.is_own_xsi_type():
+                        continue
+
                     self.bind_any_attr(params, var, qname, value)
                 else:
                     if (
@@ -191,6 +194,15 @@ class ElementNode(XmlNode):
                         raise ParserError(
                             f"Unknown attribute {self.meta.qname}:{qname}"
                         )
+
+    def is_own_xsi_type(self) -> bool:
+        """Return whether the xsi:type attribute names the class being bound.
+
+        In that case the attribute is implied by the object's class and
+        must not leak into a wildcard attributes field.
+        """
+        xsi_type = ParserUtils.xsi_type(self.attrs, self.ns_map)
+        return xsi_type is not None and xsi_type == self.meta.target_qname
 
     def bind_attr(self, params: dict, var: XmlVar, value: Any) -> None:
         """Parse an element attribute.
